@@ -20,7 +20,10 @@ pub fn run_queries(prop: &str, spec: &FileSpec, bytes: &[u8], model: &Model, que
 pub fn run_queries_io(prop: &str, spec: &FileSpec, bytes: &[u8], model: &Model, queries: &[Query], acc: &mut Acc, short_io: bool) -> u64 {
     let mut yielded = 0u64;
     let mut bad = 0;
-    for q in queries {
+    // over the short-transfer sources every block is read byte by byte, twice: an evenly strided
+    // sample of at most ~48 queries of the battery is used there
+    let stride = if short_io { (queries.len() / 48).max(1) } else { 1 };
+    for q in queries.iter().step_by(stride) {
         acc.evaluations += 1;
         acc.transitions += 1;
         let r = if short_io { crate::query::check_query_short(bytes, model, q) } else { check_query(bytes, model, q) };
